@@ -245,7 +245,7 @@ func (x *Exec) pkgName() string {
 		f = f.Parent()
 	}
 	if f.Pkg != nil {
-		return f.Pkg.Pkg.Name()
+		return pkgQual(f.Pkg.Pkg)
 	}
 	return ""
 }
@@ -296,6 +296,15 @@ func (x *Exec) hookAfter(st *State, fr *Frame, kind, key string, args []Val, ret
 			env.vars[fmt.Sprintf("arg%d", i)] = a
 		}
 		x.bindResults(env, ret)
+		for _, c := range h.Assumes {
+			g, err := env.EvalBool(c.Expr)
+			if err != nil {
+				x.errorf("%s:%d: %v", c.File, c.Line, err)
+				continue
+			}
+			st.Assume(g)
+			x.noteAbstraction(fmt.Sprintf("assumed at %s %s in %s: %s", h.Kind, h.Pattern, x.prog.localKey(x.fn), c.Expr))
+		}
 		for _, d := range h.Dos {
 			x.ghostAssign(st, env, d.Name, d.Expr, h)
 		}
